@@ -6,7 +6,7 @@ import ast
 import os
 import symtable
 
-MODES = ("unparse", "rename-locals", "swap-compare", "swap-branches", "hoist-returns", "sort-keywords", "alias-imports")
+MODES = ("unparse", "rename-locals", "swap-compare", "swap-branches", "hoist-returns", "sort-keywords", "alias-imports", "hoist-receivers")
 
 
 def _scope_locals(src):
@@ -132,6 +132,40 @@ class KeywordSorter(ast.NodeTransformer):
         return node
 
 
+def _pure_chain(e):
+    while isinstance(e, ast.Attribute):
+        e = e.value
+    return isinstance(e, ast.Name)
+
+
+class ReceiverHoister(ast.NodeTransformer):
+    """`a.b.c(args)` / `x = a.b.c(args)` as a statement -> `recv_N_ = a.b; [x =] recv_N_.c(args)` when the receiver is a plain attribute chain of length >= 2."""
+    def __init__(self):
+        self.n = 0
+
+    def _body(self, stmts):
+        out = []
+        for s in stmts:
+            s = self.visit(s)
+            call = s.value if isinstance(s, (ast.Expr, ast.Assign)) and isinstance(getattr(s, "value", None), ast.Call) else None
+            if call is not None and isinstance(call.func, ast.Attribute) and isinstance(call.func.value, ast.Attribute) and _pure_chain(call.func.value) \
+                    and not (isinstance(s, ast.Assign) and any(not isinstance(t, ast.Name) for t in s.targets)):
+                self.n += 1
+                nm = f"recv_{self.n}_"
+                out.append(ast.copy_location(ast.Assign(targets=[ast.Name(id=nm, ctx=ast.Store())], value=call.func.value), s))
+                call.func = ast.copy_location(ast.Attribute(value=ast.Name(id=nm, ctx=ast.Load()), attr=call.func.attr, ctx=ast.Load()), call.func)
+            out.append(s)
+        return out
+
+    def generic_visit(self, node):
+        super().generic_visit(node)
+        for f in ("body", "orelse", "finalbody"):
+            v = getattr(node, f, None)
+            if isinstance(v, list) and v and isinstance(v[0], ast.stmt) and not isinstance(node, (ast.Module, ast.ClassDef)):
+                setattr(node, f, self._body(v))
+        return node
+
+
 def _alias_imports(tree):
     """`import os` -> `import os as os_`, `from .errors import X` -> `from .errors import X as X_`, and every use renamed - only for names
     that are bound exactly once in the whole module (by that import) and never used as a string."""
@@ -190,6 +224,8 @@ def transform(mode, root):
                 tree = BranchSwapper().visit(tree)
             elif mode == "hoist-returns":
                 tree = Hoister().visit(tree)
+            elif mode == "hoist-receivers":
+                tree = ReceiverHoister().visit(tree)
             elif mode == "sort-keywords":
                 tree = KeywordSorter().visit(tree)
             elif mode == "alias-imports":
